@@ -229,6 +229,37 @@ func (u UnitBytes) MarshalJSON() ([]byte, error) {
 			vars, err := loadEnvFile(envFile, resolve)""", "a repeated env_file path is skipped whatever its required flag (REFS)"),
  ("C04", "port-key-typed-verbs", "K", "override/uncity.go", """		return fmt.Sprintf("%v:%v:%v/%v", host, published, target, protocol), nil""", """		return fmt.Sprintf("%s:%s:%d/%s", host, published, target, protocol), nil""", "port key depends on the YAML type of published/target (FMTVERB)"),
  ("C05", "tracker-key-of-base", "K", "loader/extends.go", """	tracker, err = tracker.Add(filename, name)""", """	tracker, err = tracker.Add(filename, ref)""", "chain recorded under the base's name: acyclic diamonds collide (CYC tracker key)"),
+ ("C10", "fileobject-external-presence", "K", "validation/validation.go", """			if ext, ok := v["external"]; !ok || ext == false {""", """			if _, ok := v["external"]; !ok {""", "a config with `external: false` and no source loads (EXTVAL)"),
+ ("C06", "clone-drops-skipdefaults", "K", "loader/loader.go", """		SkipDefaultValues:          o.SkipDefaultValues,
+""", "", "nested loads lose the caller's SkipDefaultValues (CLONE)"),
+ ("C19", "convert-in-place", "K", "loader/loader.go", """		dict := make(map[string]interface{}, len(mapping))
+		for key, entry := range mapping {
+			var newKeyPrefix string
+			if keyPrefix == "" {
+				newKeyPrefix = key
+			} else {
+				newKeyPrefix = fmt.Sprintf("%s.%s", keyPrefix, key)
+			}
+			convertedEntry, err := convertToStringKeysRecursive(entry, newKeyPrefix)
+			if err != nil {
+				return nil, err
+			}
+			dict[key] = convertedEntry
+		}
+		return dict, nil""", """		for key, entry := range mapping {
+			var newKeyPrefix string
+			if keyPrefix == "" {
+				newKeyPrefix = key
+			} else {
+				newKeyPrefix = fmt.Sprintf("%s.%s", keyPrefix, key)
+			}
+			convertedEntry, err := convertToStringKeysRecursive(entry, newKeyPrefix)
+			if err != nil {
+				return nil, err
+			}
+			mapping[key] = convertedEntry
+		}
+		return mapping, nil""", "the caller's pre-parsed Config is converted in place and then rewritten by the pipeline (INPUTS-cfg)"),
  ("C13", "stop-one-early", "K", "graph/traversal.go", """				if expect == 0 {
 					return nil
 				}
